@@ -104,7 +104,7 @@ func singleGen(idx int) (progCase, bool) {
 	pc := mkCase(prog, "singleton:"+v)
 	if hostProvided {
 		// the host provides a saved instance of every declared singleton
-		pc.Tags = append(pc.Tags, "host-provided", "vm-only")
+		pc.Tags = append(pc.Tags, "host-provided")
 		pc.HostSingletons = map[string]hs.Val{}
 		for _, sd := range prog.Singletons {
 			switch sd.T.K {
